@@ -350,6 +350,30 @@ def run(ctx):
                       message=f"{m}: `{norm(n.ast)[:70]}` writes a value derived from {sorted(set(srcs))} into replicated state",
                       how="value/keys derive from the record, replicated state and constants only",
                       where=where(f, n.ast))
+    # ---- R06.7 a record that is not applied is a rejection: its issuer must be told
+    ctx.rule("R06.7", "every path through a handler that applies nothing passes an issuer test or a reject helper (the issuer raises), "
+             "except the tabled claim-lost path of _apply_set_trial_state_values")
+    NOOP_OK = {"_apply_set_trial_state_values": "RUNNING request on an already RUNNING trial: reported to the issuer by the False return value of set_trial_state_values"}
+    for m in handlers:
+        if not m.startswith("_apply_"):
+            continue
+        f = cls.methods[m]
+        hi = HandlerInfo(ctx, cls, f, writes_r - {m}, reject_helpers)
+        g = hi.g
+        cur_aliases.clear()
+        for nm, v in single_defs(f.node).items():
+            if isinstance(v, ast.Call) and self_attr(v.func) == ISSUER:
+                cur_aliases.add(nm)
+        rw = hi.r_write_nodes(replicated)
+        gates = [t for t in g.stmt_nodes() if t.kind == "test" and (src_of(t.expr) or edges_where(t.expr, helper_call_atom))]
+        extra = []
+        if m in NOOP_OK:
+            extra = [t for t in g.stmt_nodes() if t.kind == "test" and "TrialState.RUNNING" in norm(t.expr)]
+        r = g.reachable([g.entry], avoid_nodes=rw + gates + extra, edge_ok=NORMAL)
+        ctx.check(g.exit not in r, "R06.7", f.short, "silent-drop",
+                  message=f"{m} can return without applying the record and without any issuer test on that path: the operation is dropped silently "
+                          f"for every worker, its issuer included (the caller is told it succeeded)",
+                  how="every no-op path passes an issuer test / reject helper", witness=g.witness([g.exit], guards=rw + gates + extra, edge_ok=NORMAL) if g.exit in r else None)
     ctx.floor("R06.1", "issuer_or_reject_tests", n_tests, 12)
     ctx.floor("R06.1", "replicated_write_nodes", n_rwrites, 14)
 
